@@ -105,9 +105,14 @@ def gen(ctx, sizes, reps):
                 ctx.add('sig.batch', lst(m + m[:1]), lst(s), lst(k), expect=['err', 'err'], cls='len-mismatch')
 
 
-def task(prop, seed, size, cfgbins, sizes=(0, 1, 2, 3, 7), reps=1):
+def make(seed, size, sizes=(0, 1, 2, 3, 7), reps=1):
     ctx = core.Ctx(seed, prefix='b%d_' % (seed % 100000))
     gen(ctx, list(sizes), reps)
+    return ctx
+
+
+def task(prop, seed, size, cfgbins, sizes=(0, 1, 2, 3, 7), reps=1):
+    ctx = make(seed, size, sizes=sizes, reps=reps)
     return core.run_and_judge(prop, ctx, cfgbins)
 
 
